@@ -161,6 +161,21 @@ fn mutate(m: &Meta, ty: Ty, base: &[u8], pool: &[Vec<u8>], m0: u8, m1: u8, e: u8
 }
 
 pub fn run_history(s: &'static dyn Proto, data: &[u8], stats: &mut HistoryStats) -> Result<(), String> {
+    run_history_traced(s, data, stats, true, &mut Vec::new())
+}
+
+/// `reser` = false turns the "push a kept state through a codec" operations into no-ops (the
+/// uninterrupted run C13 compares with; tapes are unaffected, they are derived per protocol
+/// step).  `trace` receives every observable outcome in order: messages, states, keys, or a
+/// marker for a refusal.
+pub fn run_history_traced(
+    s: &'static dyn Proto,
+    data: &[u8],
+    stats: &mut HistoryStats,
+    reser_enabled: bool,
+    trace: &mut Vec<Vec<u8>>,
+) -> Result<(), String> {
+    const REFUSED: u8 = 0xEE;
     ksf::set_default_spec(KsfSpec::Identity);
     let m = s.meta();
     let base = TapeSpec::from_u64(0x4157 + data.first().copied().unwrap_or(0) as u64 * 257 + data.get(1).copied().unwrap_or(0) as u64);
@@ -191,6 +206,7 @@ pub fn run_history(s: &'static dyn Proto, data: &[u8], stats: &mut HistoryStats)
                 let (pw, cred, ids) = (a % 3, b % 3, c % 3);
                 let r = crate::flow::register(s, &setup, PWS[pw], CREDS[cred], ids_of(ids), None, &tape(), &tape())
                     .map_err(|x| format!("C01 suite {}: honest registration failed: {x:?}", m.name))?;
+                trace.push([s.ser(Codec::Native, &r.record), r.export_key.clone()].concat());
                 regs.push(Reg {
                     record: r.record,
                     pw,
@@ -210,6 +226,7 @@ pub fn run_history(s: &'static dyn Proto, data: &[u8], stats: &mut HistoryStats)
                     .client_login_start(&mut tape().rng(), PWS[pw])
                     .map_err(|x| format!("C01 suite {}: client login start failed: {x:?}", m.name))?;
                 let rb = s.ser(Codec::Native, &req);
+                trace.push([rb.clone(), s.ser(Codec::Native, &state)].concat());
                 reqs.push(rb.clone());
                 clients.push(ClientSess { state, pw, req: rb });
             }
@@ -227,6 +244,7 @@ pub fn run_history(s: &'static dyn Proto, data: &[u8], stats: &mut HistoryStats)
                 let (cred, ctx, ids) = (c % 3, d % 3, (e as usize / 8) % 3);
                 match s.server_login_start(&mut tape().rng(), &setup, rec.map(|r| &regs[r].record), &req, CREDS[cred], CTXS[ctx], ids_of(ids)) {
                     Err(x) => {
+                        trace.push(vec![REFUSED]);
                         // an unaltered, well-formed request is always answered (C08: with or without a record)
                         if !changed {
                             return Err(format!("C01 suite {}: server refused a genuine request: {x:?}", m.name));
@@ -234,6 +252,7 @@ pub fn run_history(s: &'static dyn Proto, data: &[u8], stats: &mut HistoryStats)
                     }
                     Ok((resp, state)) => {
                         let rb = s.ser(Codec::Native, &resp);
+                        trace.push([rb.clone(), s.ser(Codec::Native, &state)].concat());
                         resps.push(rb.clone());
                         servers.push(ServerSess {
                             state,
@@ -281,6 +300,10 @@ pub fn run_history(s: &'static dyn Proto, data: &[u8], stats: &mut HistoryStats)
                 }
                 stats.client_finishes += 1;
                 let r = s.client_login_finish(s.clone_obj(&cl.state), PWS[pw], &resp, CTXS[ctx], ids_of(ids), None);
+                trace.push(match &r {
+                    Ok(lf) => [s.ser(Codec::Native, &lf.fin), lf.session_key.clone(), lf.export_key.clone()].concat(),
+                    Err(_) => vec![REFUSED],
+                });
                 match (matching.first(), r) {
                     (Some(&si), Ok(lf)) => {
                         stats.client_accepts += 1;
@@ -328,7 +351,12 @@ pub fn run_history(s: &'static dyn Proto, data: &[u8], stats: &mut HistoryStats)
                 let delivered = s.ser(Codec::Native, &fin);
                 let expect = done.iter().find(|dn| dn.fin == delivered && dn.server_session == si);
                 stats.server_finishes += 1;
-                match (expect, s.server_login_finish(s.clone_obj(&servers[si].state), &fin)) {
+                let fr = s.server_login_finish(s.clone_obj(&servers[si].state), &fin);
+                trace.push(match &fr {
+                    Ok(k) => k.clone(),
+                    Err(_) => vec![REFUSED],
+                });
+                match (expect, fr) {
                     (Some(dn), Ok(k)) => {
                         stats.server_accepts += 1;
                         if k != dn.key {
@@ -347,6 +375,9 @@ pub fn run_history(s: &'static dyn Proto, data: &[u8], stats: &mut HistoryStats)
             }
             // ---- push a kept state through a codec (C13): nothing observable may change
             _ => {
+                if !reser_enabled {
+                    continue;
+                }
                 let codec = CODECS[b % 3];
                 stats.reserialisations += 1;
                 let reser = |o: &Obj| -> Result<Obj, String> {
